@@ -216,10 +216,19 @@ func generate(seed int64, tier string, search bool) []kase {
 		mul *= 3
 	}
 	specs := []genSpec{
-		{proto: "dkls23", variants: []string{"bbot,k256,sha256", "bbot,p256,sha256", "bbot,k256,sha3-256", "bbot,k256,sha512"}, count: 3 * mul, maxQ: 2 + boolInt(tier == "thorough"), emptyOK: true},
-		{proto: "dkls23", variants: []string{"softspoken,k256,sha256", "softspoken,p256,sha256", "softspoken,k256,sha512"}, count: 4 * mul, maxQ: 3, emptyOK: true},
-		{proto: "lindell22", variants: []string{"bip340,-", "mina,-", "schnorr-k256,sha256", "schnorr-k256-neg,sha256", "schnorr-p256,sha256", "schnorr-k256-le,sha512"}, count: 24 * mul, maxQ: 4, emptyOK: true},
-		{proto: "boldyreva", variants: []string{"short,basic", "short,aug", "short,pop", "long,basic", "long,aug", "long,pop"}, count: 24 * mul, maxQ: 5, emptyOK: true},
+		// every ECDSA protocol / multiplier and every Schnorr flavour with a configurable hash rotates over hashes
+		// narrower-or-equal (sha256, sha3-256) and wider (sha384, sha512, sha3-384, sha3-512) than the scalar field, on
+		// both curves; the first four entries of each list (the quick tier) cover wide and narrow on k256 and p256
+		{proto: "dkls23", variants: []string{"bbot,k256,sha512", "bbot,p256,sha384", "bbot,p256,sha256", "bbot,k256,sha256",
+			"bbot,p256,sha3-512", "bbot,k256,sha3-512", "bbot,k256,sha384", "bbot,p256,sha512", "bbot,k256,sha3-256", "bbot,p256,sha3-384"},
+			count: 4 * mul, maxQ: 2 + boolInt(tier == "thorough"), emptyOK: true},
+		{proto: "dkls23", variants: []string{"softspoken,k256,sha3-512", "softspoken,p256,sha512", "softspoken,p256,sha256", "softspoken,k256,sha384",
+			"softspoken,k256,sha256", "softspoken,p256,sha3-384", "softspoken,k256,sha512", "softspoken,p256,sha3-512", "softspoken,k256,sha3-256", "softspoken,p256,sha384"},
+			count: 4 * mul, maxQ: 3, emptyOK: true},
+		{proto: "lindell22", variants: []string{"bip340,-", "mina,-", "schnorr-k256,sha512", "schnorr-k256-neg,sha256", "schnorr-p256,sha3-512", "schnorr-k256-le,sha384",
+			"bip340,-", "mina,-", "schnorr-p256,sha256", "schnorr-k256,sha256", "schnorr-k256-neg,sha3-512", "schnorr-k256-le,sha256"},
+			count: 24 * mul, maxQ: 4, emptyOK: true},
+		{proto: "boldyreva", variants: []string{"short,basic", "short,aug", "short,pop", "long,basic", "long,aug", "long,pop"}, count: 18 * mul, maxQ: 5, emptyOK: true},
 	}
 	out := lindell17Cases(seed, lindell17Count(tier)*boolMul(search, 2))
 	out = append(out, cggmpCases(seed, cggmpCount(tier))...)
@@ -235,13 +244,13 @@ func generate(seed int64, tier string, search bool) []kase {
 		}
 		for i := 0; i < sp.count; i++ {
 			rng := vh.NewRng(seed, "C01", fmt.Sprintf("gen/%d", si), i)
-			a := pols[i%len(pols)]
 			asg := (i / len(pols)) % len(assignments)
-			if sp.proto == "lindell17" || sp.proto == "cggmp21" {
-				asg = 0 // stored key material exists for the ordinal assignment only
+			var p keys.Policy
+			var q []sharing.ID
+			for off := 0; off < len(pols) && q == nil; off++ { // a policy without a quorum of the allowed size: take the next one
+				p = concretePolicy(pols[(i+off)%len(pols)], asg)
+				q = pickQuorum(p, rng, i%2 == 0, sp.maxQ, sp.exactQ)
 			}
-			p := concretePolicy(a, asg)
-			q := pickQuorum(p, rng, i%2 == 0, sp.maxQ, sp.exactQ)
 			if q == nil {
 				continue
 			}
